@@ -83,7 +83,7 @@ def run_unit(repo, specs, unit, timeout_ms=10000):
     gen_s = time.time() - t0
     results = []
     for o in eng.obls:
-        r, backend, dt, model, det = solve(o.assumptions, o.goal, timeout_ms)
+        r, backend, dt, model, det = solve(o.assumptions, o.goal, timeout_ms, quick=(o.kind == 'canary'))
         o.result, o.backend, o.time, o.model, o.detail = r, backend, dt, model, det
         results.append(o)
     return eng, status, detail, results, gen_s
@@ -160,6 +160,8 @@ def summarize(res, verbose=False):
         status = r['status']
         if canaries and all(o['result'] == 'proved' for o in canaries):
             status = 'VACUOUS'
+        if status == 'ok' and r['unit'][0] == 'contract' and not canaries:
+            status = 'VACUOUS(no exit path)'
         np_ = sum(1 for o in real if o['result'] == 'proved')
         print('%-70s %s gen=%.1fs obl=%d proved=%d covers=%s' % (r['label'], status, r['gen_s'], len(real), np_, r['covers']))
         if status != 'ok':
